@@ -525,6 +525,7 @@ fn position_units(ctx: &mut Ctx) {
 	for (sr, dev) in [(4u32, 8u32), (8, 8), (8, 4), (48000, 44100)] {
 		for rate in [1.0f64, 0.75, 1.5, 0.3] {
 			for chunk in [1usize, 3, 5] {
+			for mute in [false, true] {
 				ctx.evals += 1;
 				let frames: Vec<Frame> = (0..64).map(code).collect();
 				let info = MockInfoBuilder::new().build();
@@ -533,12 +534,17 @@ fn position_units(ctx: &mut Ctx) {
 				let first = pacer::count();
 				let (dec, stats) = ScriptedDecoder::new(frames.clone(), sr, vec![2, 1, 3], 1);
 				let td = StreamingSoundData::from_decoder(dec).playback_rate(PlaybackRate(rate));
-				let (mut ss, hs) = sd.into_sound().expect("static");
+				let (mut ss, mut hs) = sd.into_sound().expect("static");
 				let (mut ts, mut ht) = td.into_sound().map_err(|_| ()).expect("streaming");
 				let mut so = vec![Frame::ZERO; chunk];
 				let mut to = vec![Frame::ZERO; chunk];
-				let what = format!("64-frame sound at {} Hz, playback rate {}, device rate {} Hz, callbacks of {} frames", sr, rate, dev, chunk);
+				let what = format!("64-frame sound at {} Hz, playback rate {}, device rate {} Hz, callbacks of {} frames{}", sr, rate, dev, chunk, if mute { "; set_volume(-60 dB, instant) before callback 2, set_volume(0 dB, instant) before callback 5: a silent sound keeps playing" } else { "" });
 				'cbs: for cb in 0..8 {
+					if mute && (cb == 2 || cb == 5) {
+						let v = if cb == 2 { Decibels::SILENCE } else { Decibels::IDENTITY };
+						hs.set_volume(v, tw(0.0));
+						ht.set_volume(v, tw(0.0));
+					}
 					pacer::step(first, (chunk as f64 * rate * sr as f64 / dev as f64).ceil() as u64 + 8);
 					ss.on_start_processing();
 					ts.on_start_processing();
@@ -568,6 +574,7 @@ fn position_units(ctx: &mut Ctx) {
 				drop(ts);
 				drop(ht);
 				crate::probes::reap_decoder(first, &stats);
+			}
 			}
 		}
 	}
